@@ -42,6 +42,7 @@ def params(draw, tier):
     p["method"] = draw(st.sampled_from([None, None, None, "lsq", "lsq_linear"]))
     p["allow_negatives"] = draw(st.sampled_from([False, False, True]))
     p["fit"] = draw(st.sampled_from(["dlite", "taubinSVD"]))
+    p["x0"] = draw(st.sampled_from(["none", "ones", "random", "with_zero", "warm_start"])) if p["method"] == "lsq" else "none"
     if p["method"] == "lsq_linear":
         # the property covers this back-end on consistent systems only
         p["noise"] = 0.0
@@ -136,6 +137,23 @@ def solve_once(p, ctx):
     A = np.array(fm.matrix, dtype=float)
     b_top, _ = call(fm.set_velocity_matrix, fsys.mesh, **{k: v for k, v in kw.items() if k == "b_matrix"})
     b_top = np.asarray(b_top, float).flatten()
+    # user-supplied initial condition of the Levenberg-Marquardt back-end (a fresh array every time)
+    x0mode = p.get("x0", "none")
+    E = A.shape[1]
+    if x0mode == "ones":
+        kw["initial_condition"] = np.ones(E)
+    elif x0mode == "random":
+        kw["initial_condition"] = PRNG(p["noise_seed"] + 1).uniform(0.2, 3.0, size=E)
+    elif x0mode == "with_zero":
+        x0 = PRNG(p["noise_seed"] + 2).uniform(0.2, 3.0, size=E)
+        x0[:: max(2, E // 3)] = 0.0
+        kw["initial_condition"] = x0
+    elif x0mode == "warm_start":
+        # tensions of a previous default solve (NNLS clamps some to exactly 0) used as the start, as callers do
+        call(fsys.solve_stress, when=0, **{k: v for k, v in kw.items() if k not in ("method",)})
+        kw["initial_condition"] = np.array([fsys.forces[0][k] for k in range(E)], dtype=float)
+        call(fsys.build_force_matrix, when=0, circle_fit_method=p["fit"], angle_limit=np.inf)
+        fm = fsys.force_matrices[0]
     call(fsys.solve_stress, when=0, **kw)
     return fsys, fm, A, b_top, f0, t
 
@@ -258,6 +276,8 @@ def check_case(p, ctx):
     fsys, fm, A, b_top, frame, t = out
     consistent = p["noise"] == 0.0 and p["rhs"] == "static"
     ctx.count("method:" + str(p["method"]))
+    if p["method"] == "lsq":
+        ctx.count("lsq-x0:" + p.get("x0", "none"))
     ctx.count("rhs:" + p["rhs"])
     ctx.count("shape:" + p["shape"])
     judge(p, ctx, fsys, fm, A, b_top, frame, consistent)
